@@ -103,7 +103,18 @@ def run_agent(case):
     def refresh(agents):
         shared["n"] = len(agents)
         return shared
-    comp = {"absent": None, "none": lambda agents: None, "empty": lambda agents: {},
+    class Tally:
+        """a callable object that is also a container (falsy while it is empty): a function all the same"""
+        def __init__(self):
+            self.seen = []
+
+        def __len__(self):
+            return len(self.seen)
+
+        def __call__(self, agents):
+            out = {"n": len(agents)}
+            return out
+    comp = {"absent": None, "tally": Tally(), "none": lambda agents: None, "empty": lambda agents: {},
             "count": lambda agents: {"n": len(agents)}, "shared": refresh,
             # composite data whose VALUES may be None / 0 / empty ("nobody is richest"): data all the same
             "nullable": lambda agents: {"n": len(agents), "top": None, "zero": 0, "blank": ""}}[comp_kind]
@@ -159,7 +170,7 @@ def run_agent(case):
                     rec[aid] = v
                 else:
                     yielding_nothing = True
-            if comp_kind in ("count", "shared", "nullable"):
+            if comp_kind in ("count", "shared", "nullable", "tally"):
                 rec["n"] = len(view)
             if comp_kind == "nullable":
                 rec.update({"top": None, "zero": 0, "blank": ""})
@@ -313,7 +324,7 @@ def strategy(tier):
     sched = st.dictionaries(st.integers(0, 9).map(str), st.lists(pop_op, min_size=1, max_size=3), max_size=5)
     agent = st.fixed_dictionaries({
         "kind": st.just("agent"), "init": st.lists(st.builds(lambda v: {"op": "join", "val": v}, val), max_size=4),
-        "between": sched, "during": sched, "composite": st.sampled_from(["absent", "absent", "none", "empty", "count", "shared", "shared", "nullable", "nullable"]),
+        "between": sched, "during": sched, "composite": st.sampled_from(["absent", "absent", "none", "empty", "count", "shared", "shared", "nullable", "nullable", "tally"]),
         "include_ts": st.booleans(), "window": win, "prio": st.sampled_from(["default", "default", "default", "explicit-high"]),
         "steps": st.integers(1, 12), "positional": st.sampled_from([False, False, True])})
     filec = st.fixed_dictionaries({
